@@ -138,3 +138,14 @@ func fnOfValue(v ssa.Value) *ssa.Function {
 	}
 	return nil
 }
+
+// recvOf returns the receiver value of a method call (nil for functions).
+func recvOf(cc *ssa.CallCommon) ssa.Value {
+	if cc.IsInvoke() {
+		return cc.Value
+	}
+	if f := cc.StaticCallee(); f != nil && f.Signature.Recv() != nil && len(cc.Args) > 0 {
+		return cc.Args[0]
+	}
+	return nil
+}
